@@ -24,7 +24,7 @@ variable {γ : Type}
 /-- the rewriter is poisoned (then every call answers with the documented panic) or in lexer mode -/
 def RLex (r : Rewriter γ) : Prop := r.poisoned = true ∨ SLex r.stream
 
-theorem notU2_of_noU2 {e : Err} (h : NoU2 e) : NotU2 (.err e) := by
+theorem notU2_of_noU2 {e : Err} (h : NoU2x e) : NotU2 (.err e) := by
   intro st hst he
   simp only [CallRes.err.injEq] at he
   exact h st hst he
